@@ -39,6 +39,10 @@ pub fn hb_ot_layout_kern(plan: &hb_ot_shape_plan_t, face: &hb_font_t, buffer: &m
             }
         }
 
+        if !subtable.has_state_machine && !plan.requested_kerning {
+            continue;
+        }
+
         if reverse {
             buffer.reverse();
         }
@@ -46,10 +50,6 @@ pub fn hb_ot_layout_kern(plan: &hb_ot_shape_plan_t, face: &hb_font_t, buffer: &m
         if subtable.has_state_machine {
             apply_state_machine_kerning(&subtable, plan.kern_mask, buffer);
         } else {
-            if !plan.requested_kerning {
-                continue;
-            }
-
             apply_simple_kerning(&subtable, face, plan.kern_mask, buffer);
         }
 
